@@ -22,9 +22,16 @@ def varyMembers (hd : Header) : List Str := (Spec.listMembers hd sVary).map cano
 def Ex.servedUnvalidated (h : Hist) (x : Ex) : Bool := x.fromStore && !x.got304 h
 
 /-! ### C03 -/
+/-- a store read of exchange `n` or an earlier one was answered with altered bytes (bit flip, truncation,
+    foreign bytes) that may still decode: what the cache then holds is not what it wrote, and properties
+    stated over the cache's own writes (C03, C04) say nothing about it (C10 does) -/
+def Hist.contentFaultUpTo (h : Hist) (n : Nat) : Bool :=
+  h.faults.any fun f => f.n ≤ n && (f.kind == "flip" || f.kind == "bytes" || f.kind == "trunc")
+
 def monC03 (h : Hist) : Option String :=
   h.reqs.findSome? fun ri => do
     let x ← h.ex ri
+    if h.contentFaultUpTo ri.n then none else
     if !x.fromStore then none else
     if !isPlainGet ri then some s!"exchange {ri.n}: a {shw ri.method} / Range request was answered from the store" else
     match x.token with
@@ -42,6 +49,7 @@ def monC03 (h : Hist) : Option String :=
 def monC04 (h : Hist) : Option String :=
   h.reqs.findSome? fun ri => do
     let x ← h.ex ri
+    if h.contentFaultUpTo ri.n then none else
     if !(x.servedUnvalidated h) then none else
     let (m, _) ← x.token
     let rm ← h.reqOf m
@@ -352,6 +360,7 @@ def monC16 (h : Hist) : Option String :=
   first? [
     h.own.head?.map fun n => s!"exchange {n}: the header map of a response was modified after it had been returned to the caller",
     h.reqcmp.findSome? fun p => if p.2 then none else some s!"exchange {p.1}: the caller's request object was modified",
+    h.share.reverse.head?.map fun p => s!"exchange {p.1}: the background revalidation uses the caller's own {p.2} after RoundTrip has returned (the caller may reuse it once the body is closed)",
     h.reqs.findSome? fun ri => do
       let x ← h.ex ri
       match x.res.kind with
